@@ -86,6 +86,10 @@ func (c *Ctx) key(t *Term) string {
 func (c *Ctx) intern(t *Term) *Term {
 	k := c.key(t)
 	if o, ok := c.tab[k]; ok {
+		// bounds only ever tighten along a path (they are implied by the path condition)
+		if !o.Bool && o.K != KConst {
+			tighten(o, t.Lo, t.Hi)
+		}
 		return o
 	}
 	c.next++
@@ -137,6 +141,106 @@ func (t *Term) IsTrue() bool  { return t.K == KTrue }
 func (t *Term) IsFalse() bool { return t.K == KFalse }
 
 // ---------- interval helpers ----------
+
+func tighten(t *Term, lo, hi *big.Int) {
+	if lo != nil && (t.Lo == nil || lo.Cmp(t.Lo) > 0) {
+		t.Lo = lo
+	}
+	if hi != nil && (t.Hi == nil || hi.Cmp(t.Hi) < 0) {
+		t.Hi = hi
+	}
+}
+
+// Refine records bounds implied by a condition that has just been added to the path condition.
+func (c *Ctx) Refine(cond *Term) {
+	one := big.NewInt(1)
+	switch cond.K {
+	case KAnd:
+		for _, a := range cond.Args {
+			c.Refine(a)
+		}
+	case KLt: // x < y
+		x, y := cond.Args[0], cond.Args[1]
+		if y.K == KConst {
+			c.refineTerm(x, nil, new(big.Int).Sub(y.Val, one))
+		} else if x.K == KConst {
+			c.refineTerm(y, new(big.Int).Add(x.Val, one), nil)
+		} else {
+			if y.Hi != nil {
+				c.refineTerm(x, nil, new(big.Int).Sub(y.Hi, one))
+			}
+			if x.Lo != nil {
+				c.refineTerm(y, new(big.Int).Add(x.Lo, one), nil)
+			}
+		}
+	case KLe:
+		x, y := cond.Args[0], cond.Args[1]
+		if y.K == KConst {
+			c.refineTerm(x, nil, y.Val)
+		} else if x.K == KConst {
+			c.refineTerm(y, x.Val, nil)
+		} else {
+			if y.Hi != nil {
+				c.refineTerm(x, nil, y.Hi)
+			}
+			if x.Lo != nil {
+				c.refineTerm(y, x.Lo, nil)
+			}
+		}
+	case KEq:
+		x, y := cond.Args[0], cond.Args[1]
+		if y.K == KConst {
+			c.refineTerm(x, y.Val, y.Val)
+		} else if x.K == KConst {
+			c.refineTerm(y, x.Val, x.Val)
+		}
+	}
+}
+
+func (c *Ctx) refineTerm(t *Term, lo, hi *big.Int) {
+	if t.K == KConst || t.Bool {
+		return
+	}
+	tighten(t, lo, hi)
+	switch t.K {
+	case KNeg:
+		c.refineTerm(t.Args[0], negB(hi), negB(lo))
+	case KAdd:
+		// x + k
+		if len(t.Args) == 2 && t.Args[1].K == KConst {
+			k := t.Args[1].Val
+			var l, h *big.Int
+			if lo != nil {
+				l = new(big.Int).Sub(lo, k)
+			}
+			if hi != nil {
+				h = new(big.Int).Sub(hi, k)
+			}
+			c.refineTerm(t.Args[0], l, h)
+		}
+	case KMul:
+		// k * x with k > 0 constant
+		if t.Args[0].K == KConst && t.Args[0].Val.Sign() != 0 {
+			k := t.Args[0].Val
+			var l, h *big.Int
+			if k.Sign() < 0 {
+				lo, hi = negB(hi), negB(lo)
+				k = new(big.Int).Neg(k)
+			}
+			if lo != nil { // x >= ceil(lo/k)
+				q, m := eDivMod(lo, k)
+				if m.Sign() != 0 {
+					q.Add(q, big.NewInt(1))
+				}
+				l = q
+			}
+			if hi != nil { // x <= floor(hi/k)
+				h, _ = eDivMod(hi, k)
+			}
+			c.refineTerm(t.Args[1], l, h)
+		}
+	}
+}
 
 func addB(a, b *big.Int) *big.Int {
 	if a == nil || b == nil {
@@ -459,6 +563,36 @@ func (c *Ctx) Ite(cond, a, b *Term) *Term {
 
 // ---------- comparisons ----------
 
+// splitConst splits x into (rest, k) with x = rest + k when x is a sum with a constant part.
+func (c *Ctx) splitConst(x *Term) (*Term, *big.Int) {
+	if x.K == KAdd {
+		last := x.Args[len(x.Args)-1]
+		if last.K == KConst {
+			rest := x.Args[:len(x.Args)-1]
+			if len(rest) == 1 {
+				return rest[0], last.Val
+			}
+			return c.Add(rest...), last.Val
+		}
+	}
+	return x, nil
+}
+
+// moveConst rewrites (x + k) cmp y with y constant into x cmp (y - k).
+func (c *Ctx) moveConst(x, y *Term) (*Term, *Term, bool) {
+	if y.K == KConst {
+		if r, k := c.splitConst(x); k != nil {
+			return r, c.Const(new(big.Int).Sub(y.Val, k)), true
+		}
+	}
+	if x.K == KConst {
+		if r, k := c.splitConst(y); k != nil {
+			return c.Const(new(big.Int).Sub(x.Val, k)), r, true
+		}
+	}
+	return x, y, false
+}
+
 // liftIte: cmp(ite(c,a,b), k) with a,b consts => ite(c, cmp(a,k), cmp(b,k))
 func (c *Ctx) liftIte(x, y *Term, f func(a, b *Term) *Term) *Term {
 	if x.K == KIte && y.K == KConst && (x.Args[1].K == KConst || x.Args[2].K == KConst) {
@@ -490,6 +624,9 @@ func (c *Ctx) Eq(x, y *Term) *Term {
 	}
 	if r := c.liftIte(x, y, c.Eq); r != nil {
 		return r
+	}
+	if nx, ny, ok := c.moveConst(x, y); ok {
+		return c.Eq(nx, ny)
 	}
 	if x.K == KBitLen || y.K == KBitLen {
 		if y.K == KBitLen {
@@ -527,6 +664,9 @@ func (c *Ctx) Lt(x, y *Term) *Term {
 	if r := c.liftIte(x, y, c.Lt); r != nil {
 		return r
 	}
+	if nx, ny, ok := c.moveConst(x, y); ok {
+		return c.Lt(nx, ny)
+	}
 	if x.K == KBitLen && y.K == KConst {
 		// bitlen(a) < k <=> |a| < 2^(k-1)
 		k := y.Val.Int64()
@@ -561,6 +701,9 @@ func (c *Ctx) Le(x, y *Term) *Term {
 	}
 	if r := c.liftIte(x, y, c.Le); r != nil {
 		return r
+	}
+	if nx, ny, ok := c.moveConst(x, y); ok {
+		return c.Le(nx, ny)
 	}
 	if x.K == KBitLen && y.K == KConst {
 		// bitlen(a) <= k <=> |a| < 2^k
@@ -891,7 +1034,19 @@ func (t *Term) Ref() string {
 // DefBody prints the one-level body of a non-leaf node using Refs of children.
 func (t *Term) DefBody() (string, error) {
 	if t.K == KBitLen {
-		return "", fmt.Errorf("BitLen used outside a comparison with a constant")
+		// exact ite-chain: bitlen(x) = #{k : |x| >= 2^k}
+		if t.Hi == nil || t.Hi.Int64() > 700 {
+			return "", fmt.Errorf("BitLen of an unbounded term used outside a comparison with a constant")
+		}
+		n := int(t.Hi.Int64())
+		var sb strings.Builder
+		a := "(abs " + t.Args[0].Ref() + ")"
+		for k := 0; k < n; k++ {
+			fmt.Fprintf(&sb, "(ite (< %s %s) %d ", a, pow2(int64(k)).String(), k)
+		}
+		fmt.Fprintf(&sb, "%d", n)
+		sb.WriteString(strings.Repeat(")", n))
+		return sb.String(), nil
 	}
 	var sb strings.Builder
 	sb.WriteByte('(')
